@@ -184,6 +184,93 @@ pub fn run_case(cx: &mut Cx, query: String, f: impl FnOnce(&mut CaseOut)) {
     let _ = writeln!(l, "E {idx}");
 }
 
+/// A sequence of steps sharing one arena and one allocator session (C11: repeated faults on one
+/// arena).  Every step is its own protocol record (`S`/`A`/`M`/`E`, consecutive indices); the
+/// record of the most recent step is held back until the next step starts or the sequence ends,
+/// so that what the allocator finds at the end (outstanding blocks, damaged guards, writes after
+/// free) can still be attached to it.
+pub struct Seq<'a> {
+    cx: &'a mut Cx,
+    first: usize,
+    /// (index, answer, monitors) of the step whose record has not been printed yet
+    held: Option<(usize, Option<String>, Vec<String>)>,
+    pub base: usize,
+}
+
+impl Seq<'_> {
+    fn flush_held(&mut self) {
+        if let Some((idx, a, ms)) = self.held.take() {
+            let l = &mut self.cx.out;
+            let _ = writeln!(l, "A {idx} {}", a.as_deref().unwrap_or("no-answer"));
+            for m in &ms {
+                let _ = writeln!(l, "M {idx} {}", m.replace('\n', " "));
+            }
+            let _ = writeln!(l, "E {idx}");
+        }
+    }
+    /// Start step `j` (0-based) of the sequence.
+    pub fn begin(&mut self, j: usize, query: &str) {
+        self.flush_held();
+        let idx = self.first + j;
+        let _ = writeln!(self.cx.out, "S {idx} {query}");
+        let _ = self.cx.out.flush();
+        self.held = Some((idx, None, vec![]));
+        self.cx.ran += 1;
+        PANIC_SEQ.with(|p| p.set(usize::MAX));
+    }
+    pub fn answer(&mut self, a: String) {
+        if let Some(h) = &mut self.held {
+            h.1 = Some(a);
+        }
+    }
+    pub fn mon(&mut self, m: String) {
+        if let Some(h) = &mut self.held {
+            h.2.push(m);
+        }
+    }
+    pub fn check(&mut self, ok: bool, f: impl FnOnce() -> String) {
+        if !ok {
+            self.mon(f());
+        }
+    }
+}
+
+pub fn run_seq(cx: &mut Cx, queries: &[String], f: impl FnOnce(&mut Seq)) {
+    let first = cx.idx + 1;
+    cx.idx += queries.len();
+    if first <= cx.start || queries.is_empty() {
+        return; // resuming after a crash inside or behind this sequence: skip it as a whole
+    }
+    if let Some(only) = &cx.only {
+        if !queries.iter().any(|q| only.contains(&normalise_query(q))) {
+            return;
+        }
+    }
+    if cx.list_only {
+        for (j, q) in queries.iter().enumerate() {
+            let _ = writeln!(cx.out, "S {} {q}", first + j);
+            let _ = writeln!(cx.out, "E {}", first + j);
+        }
+        return;
+    }
+    crate::types::reset_logs();
+    track::begin_case();
+    IN_CASE.with(|c| c.set(true));
+    let mut seq = Seq { cx, first, held: None, base: 0 };
+    let r = catch_unwind(AssertUnwindSafe(|| f(&mut seq)));
+    IN_CASE.with(|c| c.set(false));
+    if let Err(e) = r {
+        drop(e);
+        seq.mon(format!("unexpected panic escaped the sequence in this step: {}", last_panic_msg()));
+    }
+    let problems = track::end_case();
+    let base = seq.base;
+    for p in problems {
+        seq.mon(p.describe(&|a| rel_addr(a, base)));
+    }
+    seq.flush_held();
+}
+
 pub fn round_up(n: usize, a: usize) -> usize {
     n.div_ceil(a) * a
 }
